@@ -16,8 +16,9 @@ RULE = ("histories on a live server object (delivered requests, plus hosted-set 
         "NoSuchSlave-raising datastores), ignore_missing_slaves and broadcast_enable on/off; every front-end "
         "(sync tcp/udp/serial, asyncio tcp/udp, Twisted tcp/udp) x socket framing, the stream front-ends x "
         "RTU framing, serial/asyncio x ASCII and sync/Twisted TCP x binary framing (15 combinations) are enumerated, never drawn.  A case is non-trivial when at least one request was delivered "
-        "to the handler; distinct = distinct Coq case terms.  Python-side: byte-level end-to-end check of the TCP "
-        "front-ends (independent MBAP splitter) and of RTU on the serial handler.")
+        "to the handler; distinct = distinct Coq case terms.  Python-side: byte-level end-to-end check (independent "
+        "MBAP / RTU / ASCII / binary / TLS splitters) on 10 front-end x framing combinations incl. pipelined RTU and ASCII "
+        "reads and reads mixing served and foreign units; UDP sender isolation at every cut 1..11.")
 TRUSTED = [
     "generated from source on every run (Generated/GenServer.v): broadcast test, except ladder (order, ignore test, "
     "exception codes), send guard, which ids are copied, should_respond gate, the unit list given to the framer, "
@@ -107,12 +108,12 @@ def expected_frames(sc):
 def e2e_one(sc):
     rec = L.run_scenario(sc)
     wire = b"".join(b for b, _ in rec.raw)
-    if sc["framer"] == "socket":
-        got = L.split_adus("socket", wire)
-    else:
+    if sc["framer"] in ("socket", "ascii"):      # self-delimiting on the wire: split the whole output stream
+        got = L.split_adus(sc["framer"], wire)
+    else:                                        # rtu / binary / tls: one transport write is one frame
         got = []
         for b, _ in rec.raw:
-            g = L.split_adus("rtu", b)
+            g = L.split_adus(sc["framer"], b)
             got = None if (g is None or got is None) else got + g
     exp = expected_frames(sc)
     ok = got is not None
@@ -121,7 +122,7 @@ def e2e_one(sc):
         for e in exp:
             if i < len(got):
                 tid, uid, fc, body = got[i]
-                m = (tid is None or tid == e["tid"]) and uid == e["uid"] and fc in e["fcs"] and \
+                m = (tid is None or tid == e["tid"]) and (uid is None or uid == e["uid"]) and fc in e["fcs"] and \
                     (e["codes"] is None or (len(body) == 1 and body[0] in e["codes"]))
             else:
                 m = False
@@ -150,16 +151,38 @@ def e2e_scenarios(tier):
     r = common.rng("C09.e2e")
     n = 100 if tier == "quick" else 800
     out = []
-    for fe, fr in [("sync_tcp", "socket"), ("aio_tcp", "socket"), ("tw_tcp", "socket"), ("sync_serial", "rtu")]:
-        for _ in range(n):
-            sc = L.gen_scenario(r, fe, fr, multi_bias=0.5)
+    # enumerated: one read mixing frames for foreign and served units; everything pipelined in one read
+    for fe, fr in E2E_COMBOS:
+        if fr == "tls":
+            continue
+        for ignore in (True, False):
+            def q(label, uid, n):
+                mk = (lambda i: bytes([6]) + struct.pack(">HH", (n + i) % L.NREG, 0x0102 + n + i)) if label == "w6" \
+                    else (lambda i: bytes([3]) + struct.pack(">HH", i % L.NREG, 1))
+                return {"label": label, "pdu": L.clean_pdu(fr, uid, mk).hex(), "uid": uid, "tid": 0x300 + n, "listen": False}
+            reqs = [q("r3", 9, 0), q("w6", 1, 1), q("r3", 17, 2), q("r3", 2, 3), q("w6", 9, 4), q("r3", 1, 5)]
+            out.append({"fe": fe, "framer": fr, "cfg": {"single": False, "bcast": False, "ignore": ignore},
+                        "hosted": [[1, "ok"], [2, "ok"]], "reqs": reqs, "groups": [list(range(len(reqs)))],
+                        "mode": "mixed-units-one-read", "direct": False})
+    for fe, fr in E2E_COMBOS:
+        for _ in range(n if fr in ("socket", "rtu") else n // 2):
+            sc = L.gen_scenario(r, fe, fr, multi_bias=(0.0 if fr == "tls" else 0.5))
+            if fr == "tls":      # TLS framing carries no unit id: single context only (multi-unit: finding F-C10-tls-multi-unit-keyerror)
+                sc["cfg"]["bcast"] = False
             # a listen-only request silences a Twisted server for good (Modbus listen-only mode): keep it last
             idx = [i for i, q in enumerate(sc["reqs"]) if q["listen"]]
             if idx and idx[0] != len(sc["reqs"]) - 1:
                 for i in idx:
-                    sc["reqs"][i].update(label="echo", pdu=(bytes([8]) + struct.pack(">HH", 0, 7)).hex(), listen=False)
+                    sc["reqs"][i].update(label="echo", listen=False, pdu=L.clean_pdu(
+                        fr, sc["reqs"][i]["uid"], lambda k: bytes([8]) + struct.pack(">HH", 0, 7 + k)).hex())
             out.append(sc)
     return out
+
+
+E2E_COMBOS = [("sync_tcp", "socket"), ("aio_tcp", "socket"), ("tw_tcp", "socket"),
+              ("sync_serial", "rtu"), ("aio_tcp", "rtu"), ("tw_tcp", "rtu"),
+              ("sync_serial", "ascii"), ("aio_tcp", "ascii"),
+              ("sync_tcp", "binary"), ("sync_tcp", "tls")]
 
 
 def foreign_before_end(sc):
@@ -220,9 +243,8 @@ def udp_sender_isolation(tier):
     r = common.rng("C09.udp")
     fails, keys = [], []
     for fe in ("sync_udp", "aio_udp"):
-        # cuts inside the 7-byte MBAP prefix fall into the socket framer's `_process(error=True)` branch, an open
-        # C06 finding (FRAMEWORK.md repair 5, "buffer 1..7 bytes"); the statement is checked where framing holds
-        for cut in range(8, 12):
+        # every cut, including those inside the 7-byte MBAP prefix (the socket framer's error branch is gone: repair 9)
+        for cut in range(1, 12):
             for _ in range(3 if tier == "quick" else 30):
                 ta, tb = r.choice(L.TIDS + [r.randrange(65536)]), r.randrange(1, 65536)
                 if ta == tb:
@@ -248,7 +270,7 @@ def classify(suite, desc):
     if suite == "udp-sender-isolation":
         # the asyncio datagram handler keeps ONE framer buffer for all senders; a truncated datagram with a complete
         # MBAP header (>= 8 bytes) stays buffered and swallows the head of the next sender's datagram
-        if sc["fe"] == "aio_udp" and sc["cut"] >= 8:
+        if sc["fe"] == "aio_udp" and sc["cut"] >= 1:
             return "F-C09-asyncio-udp-shared-buffer"
         return None
     if suite == "serve":
@@ -260,10 +282,11 @@ def classify(suite, desc):
                     return "F-C09-twisted-udp-ignores-should-respond"
         return None
     if suite == "e2e-bytes":
-        if sc["framer"] == "rtu" and any(len(g) > 1 for g in sc["groups"]):
-            return "F-C09-rtu-one-frame-per-read"
-        if foreign_before_end(sc):
-            return "F-C09-foreign-unit-drops-rest-of-read"
+        # RTU (repair 10) and socket/RTU/ASCII (repair 11) are fixed: anything failing there is reported
+        if sc["framer"] == "tls" and any(len(g) > 1 for g in sc["groups"]):
+            return "F-C09-tls-one-pdu-per-read"
+        if sc["framer"] == "binary" and any(len(g) > 1 for g in sc["groups"]):
+            return "F-C09-binary-frames-behind-first-lost"
         return None
     return None
 
@@ -275,7 +298,7 @@ def _witness_scenario(w):
 
 def replay_finding(f):
     w = f["witness"]
-    if f["id"] == "F-C09-asyncio-udp-shared-buffer":
+    if f["id"] in ("F-C09-asyncio-udp-shared-buffer", "F-C09-udp-short-datagram-bogus-response"):
         ok, _ = udp_isolation_one(w["fe"], w["cut"], w["tid_a"], w["tid_b"])
         return not ok
     sc = _witness_scenario(w)
@@ -285,7 +308,11 @@ def replay_finding(f):
     if f["id"] == "F-C09-twisted-udp-ignores-should-respond":
         rec = L.run_scenario(sc)
         return len(rec.raw) == 1
-    if f["id"] in ("F-C09-rtu-one-frame-per-read", "F-C09-foreign-unit-drops-rest-of-read"):
+    if f["id"] == "F-C09-udp-short-datagram-bogus-response":
+        ok, _ = udp_isolation_one(w["fe"], w["cut"], w["tid_a"], w["tid_b"])
+        return not ok
+    if f["id"] in ("F-C09-rtu-one-frame-per-read", "F-C09-foreign-unit-drops-rest-of-read",
+                   "F-C09-tls-one-pdu-per-read", "F-C09-binary-frames-behind-first-lost"):
         ok, _ = e2e_one(sc)
         return not ok
     return None
